@@ -39,7 +39,7 @@ structure St where
   clientStreams : Bool := true     -- (scenario app) desc.ClientStreams
   mon : Mon := {}
 
-def scenarios : List String := ["pick", "squota", "wquota", "window", "header", "recv", "app"]
+def scenarios : List String := ["pick", "squota", "wquota", "window", "header", "recv", "app", "recvbody"]
 
 def pref : Nat → Bool := fun _ => false
 
@@ -50,15 +50,17 @@ def setup (sc : String) : GrpcModel.Deadline.St × List Ev :=
   | "squota" => (GrpcModel.Deadline.St.init false false 0, [.pickerReady])
   | "header" => (GrpcModel.Deadline.St.init false false 1, [.pickerReady])
   | "recv" => (GrpcModel.Deadline.St.init false false 1, [.pickerReady, .headers])
+  | "recvbody" => (GrpcModel.Deadline.St.init false false 1, [.pickerReady, .headers, .partialMsg])
   | "wquota" => (GrpcModel.Deadline.St.init true false 1, [.pickerReady, .appSend 200005, .replenish 65535, .appSend 6])
   | _ => (GrpcModel.Deadline.St.init true false 1, [.pickerReady, .headers, .appSend 200005, .replenish 65535, .appRecv])
 
-def showPos : PC → String
+def showPos (pc : PC) (midMsg : Bool := false) : String :=
+  match pc with
   | .parked .pick => "at:pick"
   | .parked .newStream => "at:newstream"
   | .parked .wquota => "at:wquota"
   | .parked .header => "at:header"
-  | .parked .recv => "at:recv"
+  | .parked .recv => if midMsg then "at:recvbody" else "at:recv"
   | .app => "at:app"
   | .returned c => s!"ret:{c}"
 
@@ -197,7 +199,7 @@ def step : Step St := fun st fs impl =>
         let dl := if to > 0 then some (st.now + to) else none
         -- handler start: its context deadline is arrival + decodeTimeout(grpc-timeout)
         let (srv, pend) :=
-          if r.created then
+          if r.created && sc != "recvbody" then
             let sd : Option Nat := match dl with
               | some d => match timeoutHeader st.now d with
                 | .ok h => serverDeadline st.now h
@@ -207,7 +209,7 @@ def step : Step St := fun st fs impl =>
              [s!"h@{st.now}:{match sd with | some x => toString x | none => "none"}"])
           else (none, [])
         ({ st with rpc := some r, deadline := dl, srv := srv, pending := pend,
-                   mon := { st.mon with started := true, deadline := dl, pending := "rpc" } }, showPos r.pc, "-")
+                   mon := { st.mon with started := true, deadline := dl, pending := "rpc" } }, showPos r.pc r.midMsg, "-")
       | _, _ => (st, "bad-op", "-")
     | ["new", c, ss, h, a] =>
       let bit (x : String) := x == "0" || x == "1"
